@@ -248,7 +248,14 @@ func TestVfC18Codec(t *testing.T) {
 		if o == nil {
 			o = []byte{}
 		}
-		emit(map[string]interface{}{"k": "dec", "cls": cls, "stream": vfC18Ints(s), "out": vfC18Ints(o), "err": vfC18ErrText(err), "panic": pan})
+		// a decoder that hands back a buffer of the DECLARED size may return megabytes for a corrupt stream:
+		// the length is recorded in full, the bytes up to 8 KiB (every well-formed stream here decodes to <= 4 KiB)
+		olen := len(o)
+		if len(o) > 8192 {
+			o = o[:8192]
+		}
+		emit(map[string]interface{}{"k": "dec", "cls": cls, "stream": vfC18Ints(s), "out": vfC18Ints(o), "outlen": olen,
+			"err": vfC18ErrText(err), "panic": pan})
 		return true
 	}
 	nenc, ndec, nskipped := 0, 0, 0
